@@ -336,6 +336,42 @@ func init() {
 					}
 					ips = append(ips, ip)
 					gns = append(gns, gen.GNIP(ip))
+					if rng.Intn(3) == 0 {
+						// a byte-level RELATIVE of the entry next to it (before or after): the 4 octets zero-padded to 16
+						// (a.b.c.d -> aabb:ccdd::), the first 4 octets of a 16-octet entry, the IPv4-mapped form, an exact
+						// repeat - each entry is still judged for itself
+						var rel net.IP
+						switch rng.Intn(4) {
+						case 0:
+							rel = make(net.IP, 16)
+							copy(rel, ip)
+							if len(ip) == 16 {
+								rel = append(net.IP{}, ip[:4]...)
+							}
+						case 1:
+							if v4 := ip.To4(); v4 != nil {
+								rel = append(net.IP{}, v4.To16()...)
+								if len(ip) == 16 {
+									rel = append(net.IP{}, v4...)
+								}
+							}
+						case 2:
+							rel = append(net.IP{}, ip...)
+						default:
+							rel = make(net.IP, 16)
+							copy(rel[12:], ip[len(ip)-4:])
+						}
+						if rel != nil {
+							if rng.Intn(2) == 0 {
+								ips = append(ips, rel)
+								gns = append(gns, gen.GNIP(rel))
+							} else {
+								ips = append([]net.IP{rel}, ips...)
+								gns = append([]*der.Node{gns[0], gen.GNIP(rel)}, gns[1:]...)
+							}
+							c.R.Count("san_ip_relatives", 1)
+						}
+					}
 				}
 				spec := gen.TLSLeaf(nb, "www.example.com")
 				for k, e := range spec.Exts {
